@@ -2,6 +2,8 @@
 # tools/run_seed.sh <patch.diff> <ID> [<ID> ...]  — applies a seeded change to /repo, runs the quick
 # checks of the given properties, and undoes it straight afterwards.
 P="$1"; shift
+# evidence of runs against a changed tree goes to a scratch directory, never into /verif/evidence
+export WWCHECK_EVIDENCE_DIR=$(mktemp -d /tmp/seed_evidence.XXXXXX)
 git -C /repo apply "$P" || { echo "patch does not apply"; exit 3; }
 for id in "$@"; do
   echo "--- $id"; (cd /verif && ./check "$id" 2>&1 | grep -E "^(VIOLATION|OK|INCONCLUSIVE|  check=)" | cut -c1-420)
@@ -10,3 +12,4 @@ git -C /repo checkout -- .
 git -C /repo status --short | head -3
 # leave the harness binary built from the restored tree
 (cd /verif && ./check --build-only >/dev/null 2>&1)
+rm -rf "$WWCHECK_EVIDENCE_DIR"
